@@ -201,6 +201,22 @@ def r4(ctx):
                 ctx.bad("R05.4", inst, "hash-order-dependent-effect:" + short(pretty(other[0]), 60), c.loc(fn, other[0]),
                         "%s: loop over a HashMap performs `%s`, whose result can depend on iteration order" % (p, short(pretty(other[0]), 100)))
             elif pushes:
+                # a push through a binding obtained from a map (`Some(v) = m.get_mut(k)`, `m.entry(k).or_insert_with(..)`) targets that map
+                def owner(b):
+                    if b is None:
+                        return None
+                    for z in walk(body):
+                        scr = None
+                        if z.get("k") == "match" and any(h == b["hid"] for a_ in z["arms"] for (_, h) in pat_binds(a_["pat"])):
+                            scr = z["scrut"]
+                        if z.get("k") == "letx" and any(h == b["hid"] for (_, h) in pat_binds(z["pat"])):
+                            scr = z["init"]
+                        if scr is not None:
+                            base2 = _base_local(scr)
+                            if base2 is not None and "HashMap" in (c.ty(base2) or ""):
+                                return base2
+                    return b
+                pushes = [(y_, owner(b_)) for (y_, b_) in pushes]
                 targets = {b["hid"] for (_, b) in pushes if b is not None}
                 ok = all(b is not None for (_, b) in pushes) and all(_normalised_after(c, fn, node, h) for h in targets)
                 ctx.check("R05.4", inst, ok, "appends-in-hash-order-without-sorting:" + ",".join(sorted({b["name"] for (_, b) in pushes if b is not None})),
